@@ -279,6 +279,7 @@ func (t *Task) removeFromQueues() {
 // occupies the queue slot: the queue handler will wait for it before starting
 // the next queued task. It must only be set by the queue handler itself.
 func (t *Task) runWithLocking(queued bool) {
+	vhook.AtS("modules.task.prerun", t.name)
 	t.lock.Lock()
 
 	// we will not attempt execution, remove from queues
@@ -584,12 +585,14 @@ func taskScheduleHandler() {
 				// already queued and maxDelay reached
 				t.overtime = false
 				scheduleLock.Unlock()
+				vhook.AtS("modules.sched.decided", t.name)
 
 				t.runWithLocking(false)
 			} else {
 				// place in front of prioritized queue
 				t.overtime = true
 				scheduleLock.Unlock()
+				vhook.AtS("modules.sched.decided", t.name)
 
 				t.StartASAP()
 			}
